@@ -418,6 +418,7 @@ func (s *BgpServer) Serve() {
 			return
 		case op := <-s.mgmtCh:
 			tWait := tStart.Sub(op.timestamp)
+			verifYield("mgmt", nil)
 			s.shared.mu.Lock()
 			s.handleMGMTOp(op)
 			s.shared.mu.Unlock()
@@ -1290,6 +1291,7 @@ func (s *BgpServer) propagateUpdate(peer *peer, pathList []*table.Path) {
 
 		func(path *table.Path) {
 			bucket := s.shared.propagateBucket(path)
+			verifYield("bucket", nil)
 			bucket.Lock()
 			defer bucket.Unlock()
 
